@@ -262,6 +262,26 @@ META = {
         ],
         run_cap_s=300, shrink_tests=40, shrink_s=120,
     ),
+    "C05": _m(
+        "E", "fault_enumeration", (64, 20000), (420, 3000),
+        "Each run = 160 direct calls of liesel.goose.mh.mh_step (jit+vmap, 6 of them also eagerly) on a dict model whose log-density is a "
+        "stored field, so current / proposed log-densities and the log-correction are injected exactly from {finite grid, tiny, huge, "
+        "+inf, -inf, NaN}, with keys from {random, F4: uniform draw exactly 0.0, draw just below 1}; every second run additionally 5 direct "
+        "transitions of RWKernel / MHKernel (zero or declared correction) at a point where every proposal has zero / NaN density, under F4 "
+        "keys one split deeper; every fourth run an Engine run of RW / MH (random-walk and independence proposals) / IWLS on a density with "
+        "-inf and NaN regions. Fault classes enumerated: undefined ratio, alpha=0, alpha=1, 0<alpha<1 x boundary draws. Non-trivial = "
+        "at least one call; distinct = distinct run signature.",
+        "mh_step calls + kernel transitions",
+        "distinct (first cases, kernel config, engine config) signatures; fault-class counters in faults_injected",
+        ["liesel.goose.mh.mh_step, RWKernel, MHKernel, IWLSKernel, DictInterface, Engine"],
+        ["dict model with the log-density as a stored field / densities with -inf and NaN regions (F2)", "F4 keys found by a vectorised key search (simkit/f4_keys.json, verified at run time)"],
+        [
+            "the uniform draw of a key is jax.random.uniform(key) (the documented draw); RW/MH/IWLS kernels draw it from split(key)[1]",
+            "a tie u == alpha for 0 < alpha < 1 is left undecided (margin 1e-5 + 1e-4 alpha)",
+            "in engine runs 'accepted' is read off position_moved and cross-checked against the stored positions",
+        ],
+        run_cap_s=300, shrink_tests=40, shrink_s=120,
+    ),
 }
 
 
@@ -276,6 +296,14 @@ NOT_APPLICABLE["C18"] = (
 )
 
 MANIFEST_TEXT = {
+    "C05": dict(
+        technique="deterministic simulation with fault injection: injected non-finite densities/corrections and rare PRNG outcomes (uniform draw exactly 0) on mh_step, kernels and engine runs; accept/reject histories vs the exact rule",
+        design_ref="DESIGN.md section 4 C05, section 1.2 F2/F4/F5",
+        level_text="Fault kinds are enumerated (every class of non-finite input x boundary draws u == 0 and u just below 1), the rest sampled; each "
+        "call is judged against min(1, exp(difference + correction)) computed in float64 from the injected numbers, returned states are "
+        "compared bit for bit, engine runs on densities with zero/NaN regions are checked over the recorded transitions. Not a proof.",
+        level_note="Trusted: jax.random.uniform(key) as the documented draw; float64 exp. The densities are stubs; mh_step and the kernels are real.",
+    ),
     "C20": dict(
         technique="deterministic simulation: seeded loss histories through the real Stopper vs the documented rule; real optim_flat runs whose position history is the batch-membership history (batch PRNG seam)",
         design_ref="DESIGN.md section 4 C20, section 3 world O",
